@@ -7,7 +7,7 @@ from mc.patterns import pat
 
 PROPERTY_ID = "C19"
 RULE = ("2-safety by self-composition over an enumerated secret alphabet: for each operation (X25519 general and fixed-base, Ed25519 keypair / signature / "
-        "signature_extended, Poly1305, HMAC-SHA256, ChaCha20, Salsa20, MacResult ==, Tag ==, incremental AEAD tag verdict) the release-profile victim (hooks off) is "
+        "signature_extended, Poly1305 (also on the RFC 8439 A.3 wrap-around messages with keys r in {1,2}, s in {0,ff..} whose accumulator crosses 2^130-5), HMAC-SHA256, ChaCha20, Salsa20, MacResult == (lengths 16..64 incl. 20, 28, 33), Tag ==, incremental AEAD tag verdict) the release-profile victim (hooks off) is "
         "executed under valgrind lackey once per secret with all public inputs fixed; the complete sequence of instruction addresses between two markers must be "
         "identical to the baseline secret's; secrets: 00.., FF.., single-bit values, patterns; for comparisons: equal, and first mismatch at every position; the "
         "baseline is traced twice and must equal itself; a deliberately leaky operation must be flagged (tracer self-test) before any verdict; thorough re-traces the "
@@ -52,13 +52,22 @@ def ops(tier):
     out.append(("ed_sign", msg67, secrets(32, tier, 32, (0, 7, 128, 255))))
     out.append(("ed_sign_ext", msg67, secrets(64, tier, 32, (0, 254, 256, 511))))
     out.append(("poly1305", msg67, secrets(32, tier, 16, (0, 127, 128, 255))))
+    # Poly1305 with crafted public messages and keys whose accumulator crosses 2^130-5 (RFC 8439 A.3 wrap-around inputs):
+    # the final conditional subtraction must not become a branch
+    ff16 = "ff" * 16
+    r1, r2 = (1).to_bytes(16, "little"), (2).to_bytes(16, "little")
+    special = [pat(5, 0, 32), r1 + bytes(16), r2 + bytes(16), r1 + b"\xff" * 16, r2 + b"\xff" * 16, bytes(32), b"\xff" * 32,
+               bytes.fromhex("01000000000000000400000000000000") + bytes(16)]
+    for pub in (ff16, "02" + "00" * 15, ff16 + "f0" + "ff" * 15 + "11" + "00" * 15, ff16 + "fb" + "fe" * 15 + "01" * 16, "fd" + "ff" * 15,
+                "e33594d7505e43b900000000000000003394d7505e4379cd010000000000000000000000000000000000000000000000"):
+        out.append(("poly1305", pub, special))
     out.append(("hmac_sha256", msg67, secrets(32, tier, 16, (0, 127, 128, 255))))
     out.append(("chacha20", data130, secrets(32, tier, 16, (0, 127, 128, 255))))
     out.append(("salsa20", data130, secrets(32, tier, 16, (0, 127, 128, 255))))
     # comparisons: the public side is fixed, the secret equals it or first differs at position i
-    for op, n in (("macresult_eq", 32), ("tag_eq", 16)):
+    for op, n in (("macresult_eq", 32), ("macresult_eq", 20), ("macresult_eq", 28), ("macresult_eq", 33), ("macresult_eq", 64), ("tag_eq", 16)):
         base = pat(7, 0, n)
-        pos = range(n) if tier == "thorough" else (0, 1, n // 2, n - 1)
+        pos = range(n) if tier == "thorough" else sorted({0, 1, 7, 8, n // 2, n - 2, n - 1})
         sec = [base]
         for i in pos:
             m = bytearray(base)
